@@ -2,7 +2,7 @@
    (the limiter on its own).  Model: model/Limiter.v - session.py:57-89 on CPython 3.12's
    asyncio.Semaphore.  Every theorem is over ALL label sequences (labels that are not enabled
    are no-ops); the only hypothesis is the property's own: targets are at least 1. *)
-From AV Require Import Base Limiter LimiterProofs Gen_session Throttle ThrottleProofs.
+From AV Require Import Base Limiter LimiterProofs LimiterOrder Gen_session Throttle ThrottleProofs.
 Local Open Scope Z_scope.
 
 Definition targets_ge_1 (ls : list label) : Prop := Forall ok_label ls.
@@ -51,6 +51,17 @@ Theorem C13_fifo : forall l l', wake_first l = Some l' ->
   exists a w b, l = a ++ (w, Pending) :: b /\ l' = a ++ (w, Woken) :: b /\
                 forallb (fun x => negb (is_pending (snd x))) a = true.
 Proof. exact wake_first_spec. Qed.
+
+(* ... and globally: nobody overtakes a waiting worker.  For every label sequence in which every worker
+   enters at most once (limits of at least 1): whenever x is still queued, whoever holds a permit, has ever
+   been admitted, or has been handed a permit entered BEFORE x - whatever the cancellations, the limit
+   changes and the order in which resumed tasks run *)
+Theorem C13_no_overtaking : forall t ls, 1 <= t -> targets_ge_1 ls -> NoDup (starts ls) ->
+  let st := run t ls in
+  forall x y, find_waiter x (waiters st) = Some Pending ->
+              (In y (holders st) \/ In y (admitted st) \/ find_waiter y (waiters st) = Some Woken) ->
+              exists a b, starts ls = a ++ b /\ In y a /\ In x b.
+Proof. exact no_overtaking. Qed.
 
 Theorem C13_exit_serves_head : forall st w ws, memN w (holders st) = true -> semv st <= target st ->
   wake_first (waiters st) = Some ws ->
@@ -130,11 +141,20 @@ Example C13_session_ex :
   Forall tok_label ls.
 Proof. vm_compute. repeat split; repeat constructor. Qed.
 
+(* non-vacuity of C13_no_overtaking: worker 3 is still queued, 1 and 2 hold permits and entered before it *)
+Example C13_no_overtaking_ex :
+  let ls := [Start 1; Start 2; Start 3; Start 4; Cancel 4; Exit 1; Start 5]%N in
+  let st := run 2 ls in
+  find_waiter 3 (waiters st) = Some Woken /\ find_waiter 5 (waiters st) = Some Pending /\
+  holders st = [2%N] /\ NoDup (starts ls) /\ targets_ge_1 ls.
+Proof. vm_compute. repeat split; repeat constructor; cbn; intuition discriminate. Qed.
+
 Print Assumptions C13_conservation.
 Print Assumptions C13_bound.
 Print Assumptions C13_lowering.
 Print Assumptions C13_raising.
 Print Assumptions C13_fifo.
+Print Assumptions C13_no_overtaking.
 Print Assumptions C13_exit_serves_head.
 Print Assumptions C13_zero_refuses.
 Print Assumptions C13_session_shape.
